@@ -135,6 +135,56 @@ def long_names():
   return st.one_of(free, structured)
 
 
+# ---- the path function is shared by the writer thread and the reactor thread (metadata requests) -----------
+@st.composite
+def thread_cases(draw):
+  names = st.one_of(long_names(), st.sampled_from(['a.b', 'a.c', 'm;t=v', 'x.y.z', 'servers.web.cpu']))
+  return {'threads': [draw(st.lists(names, min_size=1, max_size=4)), draw(st.lists(names, min_size=1, max_size=4))],
+          'hash_filenames': draw(st.booleans()), 'backend': draw(st.sampled_from(['whisper', 'whisper', 'ceres'])),
+          'switches': [[k, 1] for k in sorted(set(draw(st.lists(st.integers(1, 60), max_size=8))))],
+          'first': draw(st.integers(0, 1))}
+
+
+def execute_threads(ctx, case):
+  from ..sched import Sched
+  b, database, root, data = setup()
+  db, root, data_real = get_db(case['backend'], case['hash_filenames'])
+  progs = [[n.replace('\x00', '') for n in p] for p in case['threads']]
+  try:
+    want = [[db.getFilesystemPath(n) for n in p] for p in progs]
+  except Exception:
+    return
+  got = [[], []]
+  sched = Sched(case['switches'], [database.__file__, b.util.__file__])
+
+  def body(i):
+    def f():
+      for n in progs[i]:
+        got[i].append(db.getFilesystemPath(n))
+    return f
+  sched.spawn('writer', body(0))
+  sched.spawn('reactor', body(1))
+  sched.run(case.get('first', 0))
+  for t in sched.threads:
+    if t.exc is not None:
+      ctx.fail('C14:path-function-raised:%s' % type(t.exc).__name__, 'getFilesystemPath raised %r under two threads' % (t.exc,), case)
+      return
+  if got != want:
+    ctx.fail('C14:nondeterministic-path', 'two threads asking one %s database for paths: got %r, the mapping gives %r' % (
+      case['backend'], got, want), case, 'deterministic')
+    return
+  ctx.note(case, nontrivial=len(sched.preemptions()) > 0 and progs[0] != progs[1], classes=['two threads', case['backend']])
+
+
+_execute_single = execute
+
+
+def execute(ctx, case):  # noqa: dispatch
+  if 'threads' in case:
+    return execute_threads(ctx, case)
+  return _execute_single(ctx, case)
+
+
 def run(ctx):
   setup()
   maxlen = 5 if ctx.quick else 6
@@ -172,3 +222,4 @@ def run(ctx):
                     long_names(), st.booleans(), st.sampled_from(['whisper', 'ceres']), st.integers(0, 5).map(lambda x: x == 0))
   run_given(ctx, cases, execute, ctx.scale(2500, 8000), salt=1)
   sweep_sandbox(ctx, {'note': 'final sweep of the sandbox after all create calls'})
+  run_given(ctx, thread_cases(), execute, ctx.scale(400, 2500), salt=2)
